@@ -59,15 +59,12 @@ theorem redactString_eq (g : Globals) (T : Tables) (s ph : Str) :
 theorem IsEmail_eq (g : Globals) (T : Tables) (s : Str) : IsEmail g T s = some (isEmail s) := by
   unfold IsEmail isEmail
   simp only [strLen, reMatch]
-  by_cases h1 : (utf8Len s : Int) < 3
-  · have : ¬ (3 ≤ utf8Len s) := by omega
-    simp [h1, this]
-  · by_cases h2 : (utf8Len s : Int) > 254
-    · have : ¬ (utf8Len s ≤ 254) := by omega
-      simp [h1, h2, this]
-    · have a : 3 ≤ utf8Len s := by omega
-      have b : utf8Len s ≤ 254 := by omega
-      simp [h1, h2, a, b]
+  -- (robust against the spelling of the length guard: `<` / `>` or negated `>=` / `<=`)
+  have p1 : ((utf8Len s : Int) < 3) ↔ ¬ (3 ≤ utf8Len s) := by omega
+  have p2 : ((utf8Len s : Int) > 254) ↔ ¬ (utf8Len s ≤ 254) := by omega
+  have p3 : ((utf8Len s : Int) ≥ 3) ↔ (3 ≤ utf8Len s) := by omega
+  have p4 : ((utf8Len s : Int) ≤ 254) ↔ (utf8Len s ≤ 254) := by omega
+  by_cases a : 3 ≤ utf8Len s <;> by_cases b : utf8Len s ≤ 254 <;> simp [p1, p2, p3, p4, a, b]
 
 theorem idx_append_length {α : Type} (pre : List α) (x : α) (rest : List α) :
     idx (pre ++ x :: rest) (pre.length : Int) = some x := by
